@@ -75,6 +75,27 @@ func c05HasCmp(p *Pkg, recv, fn, want string) bool {
 	return found
 }
 
+// c05CallOrder reports whether the calls named in `want` (printed callee
+// expressions, e.g. "s.prepare") occur in function recv.fn in exactly this source
+// order (other calls in between are ignored; each must occur exactly once).
+func c05CallOrder(p *Pkg, recv, fn string, want []string) bool {
+	fd := p.Func(recv, fn)
+	var got []string
+	ast.Inspect(fd.Body, func(n ast.Node) bool {
+		if ce, ok := n.(*ast.CallExpr); ok {
+			var b strings.Builder
+			_ = printer.Fprint(&b, p.Fset, ce.Fun)
+			for _, w := range want {
+				if b.String() == w {
+					got = append(got, w)
+				}
+			}
+		}
+		return true
+	})
+	return strings.Join(got, ",") == strings.Join(want, ",")
+}
+
 func c05BoolFact(name string, f func() bool) Fact {
 	return Fact{Name: name, Gen: func() string { return defBool(name, f()) }}
 }
@@ -93,6 +114,20 @@ func init() {
 		}),
 		c05BoolFact("src_clear_to_loop_le", func() bool {
 			return c05HasCmp(loadPkg("internal/rsm"), "Session", "clearTo", "k <= to")
+		}),
+		// concurrentSave = prepare under s.mu.RLock, then (lock released) sync and doSave:
+		// the two steps the harness runs separately (hook VerifC05SaveStep1/2)
+		c05BoolFact("src_concurrent_save_steps", func() bool {
+			return c05CallOrder(loadPkg("internal/rsm"), "StateMachine", "concurrentSave",
+				[]string{"s.mu.RLock", "s.mu.RUnlock", "s.prepare", "s.sync", "s.doSave"})
+		}),
+		// the session table is serialised while the snapshot meta is built (under the lock
+		// that fixes the snapshot index), and nowhere later
+		c05BoolFact("src_sessions_saved_in_meta", func() bool {
+			p := loadPkg("internal/rsm")
+			return c05CallOrder(p, "StateMachine", "getSSMeta", []string{"s.sessions.SaveSessions"}) &&
+				c05CallOrder(p, "StateMachine", "prepare", []string{"s.getSSMeta"}) &&
+				!c05CallOrder(p, "StateMachine", "doSave", []string{"s.sessions.SaveSessions"})
 		}),
 		c05BoolFact("src_evict_when_gt", func() bool {
 			return c05HasCmp(loadPkg("internal/rsm"), "", "newLRUSession", "uint64(n) > rec.size")
